@@ -253,6 +253,27 @@ theorem C10_restart_restores_table_partial {O : Oracle} {c : Conf} {s : State} (
   have h := restart_restores hr.inv hm hsub hnamed huniq
   exact ⟨h, h ▸ sortByHost_perm _⟩
 
+/-! ### why the theorems assume hardware addresses of one length
+
+`reserveLease` recycles an expired lease with `copy(lease.HWAddr, mac)`.  With
+6- and 8-byte addresses in one network this writes a hybrid address: the code
+(and the model, which transcribes `copy`) then violates "a client holds at most
+one lease" and "what a client is told is in the table".  `Op.wf` excludes it. -/
+
+/-- Without `Op.wf`: the 6-byte client is offered 0.0.0.10, but the recycled
+lease is now recorded under the 8-byte address of ANOTHER client, which thus
+holds two leases, and no lease is recorded for the client that got the offer. -/
+theorem C10_counterexample_mixed_length_hardware_addresses :
+    ConfOK c0 ∧
+    (step O0 c0 (run O0 c0 State.init (opsMixed.take 3)) (.discover mB)).2 = { rc := 1, typ := 2, yi := 10, err := "ok" } ∧
+    (run O0 c0 State.init opsMixed).leases.map (fun l => (l.ip, l.mac)) =
+      [(10, [2, 0, 0, 0, 0, 2, 7, 7]), (11, [2, 0, 0, 0, 0, 2, 7, 7]), (12, [2, 0, 0, 0, 0, 3, 7, 7])] ∧
+    ¬ ((run O0 c0 State.init opsMixed).leases.map (·.mac)).Nodup ∧
+    specWhy c0 (obsOf c0 (run O0 c0 State.init (opsMixed.take 3))) (.discover mB)
+      (step O0 c0 (run O0 c0 State.init (opsMixed.take 3)) (.discover mB)).2
+      (obsOf c0 (run O0 c0 State.init opsMixed)) = some "offer-recorded-under-hybrid-hardware-address" := by
+  refine ⟨c0_ok, by decide, by decide, by decide, by decide⟩
+
 /-! ### non-vacuity -/
 
 /-- `ConfOK` and `Op.wf` are satisfiable; a reachable table with a reservation,
